@@ -6,12 +6,12 @@ Lemma un_bool_SB : forall b, un_bool (SB b) = Some b.
 Proof. destruct b; reflexivity. Qed.
 
 Lemma side_ok_model : forall fp v,
-  wf v = true -> no_pandas v = true ->
+  wf v = true ->
   side_ok fp v (obs_side (to_hashable fp v)) (obs_stable (to_hashable fp v)) = true.
 Proof.
-  intros fp v Hwf Hnp. unfold side_ok. destruct (convertible fp v) eqn:Hc; [|reflexivity]. cbn [negb].
-  destruct (total_on_supported fp v Hwf Hnp Hc) as [k Hk]. rewrite Hk.
-  assert (Hh := key_hashable fp v k Hwf Hnp Hk).
+  intros fp v Hwf. unfold side_ok. destruct (convertible fp v) eqn:Hc; [|reflexivity]. cbn [negb].
+  destruct (total_on_supported fp v Hwf Hc) as [k Hk]. rewrite Hk.
+  assert (Hh := key_hashable fp v k Hwf Hk).
   unfold obs_side, obs_stable, side_is_ok_hashable. rewrite Hh, !un_bool_SB.
   destruct (has_opaque v); reflexivity.
 Qed.
